@@ -96,17 +96,16 @@ fn c13_clamp_keeps_commanded_frequency_in_bounds() {
     let error = any_finite();
     let bound = any_finite();
     kani::assume(bound > 0.0 && bound <= 1e12 && current.abs() <= bound && error.abs() <= 1e15);
+    let sum = current + error;
     let r = clamp_adjustment(current, error, bound);
     assert!(r.is_finite());
-    if current + error > bound {
+    if sum > bound {
         assert!(r == bound - current);
-    } else if current + error < -bound {
+    } else if sum < -bound {
         assert!(r == -bound - current);
     } else {
         assert!(r == error);
     }
-    // never steers away from the permitted range
-    assert!(r.abs() <= error.abs() || (current + error).abs() <= bound);
 }
 
 /// change_frequency: the argument of Clock::set_frequency is finite and within +-max_freq_offset; at most one
